@@ -156,14 +156,19 @@ def harnesses(tier, seed):
     for n in range(1, maxn + 1):
         for kinds in itertools.product("rdnofDze", repeat=n):
             layouts.append(kinds)
-    if tier == "quick":
-        import random
+    import random
 
-        rnd = random.Random(seed)
+    rnd = random.Random(seed)
+    if tier == "quick":
         small = [k for k in layouts if len(k) <= 2]
         big = [k for k in layouts if len(k) == 3]
         rnd.shuffle(big)
         layouts = small + big[:30]
+    else:
+        small = [k for k in layouts if len(k) <= 3]
+        big = [k for k in layouts if len(k) == 4]
+        rnd.shuffle(big)
+        layouts = small + big[:500]
     for kinds in layouts:
         s = Schema("LAY_" + "".join(kinds), "L", "from dataclasses import KW_ONLY\n" + layout_src(kinds))
         hs.append(gen.custom_harness("C07", "c07", s, "mixin"))
